@@ -32,6 +32,7 @@ type RunOut struct {
 	Worlds       int // number of simulated worlds (recoveries count)
 	Tape         []uint32
 	Sample       any
+	Pinned       *Plan // plan that reproduces the violation directly (search engines)
 }
 
 func newOut() *RunOut {
